@@ -141,3 +141,66 @@ _t_shared_structs = tasks
 def tasks(tier):
     from specs.C08 import shared_struct_tasks
     return _t_shared_structs(tier) + shared_struct_tasks('C16.i.', ['MarginfiAccountClose', 'TransferToNewAccount', 'TransferToNewAccountPda', 'LendingAccountCloseBalance'])
+
+
+# ---------------------------------------------------------------- C16.d: asset-tag compatibility over all 16 slots (quick-tier twin of the Kani harness C16.k), and the bank/bank variant
+DEFAULT_LIKE = (0, 3, 4, 5); STAKED = 2
+
+
+def _tag_consts(eng, ob):
+    want = {'ASSET_TAG_DEFAULT': 0, 'ASSET_TAG_SOL': 1, 'ASSET_TAG_STAKED': 2, 'ASSET_TAG_KAMINO': 3, 'ASSET_TAG_DRIFT': 4, 'ASSET_TAG_SOLEND': 5}
+    for n, v in want.items():
+        c = eng.const_val(None, 'marginfi_type_crate::constants::' + n)
+        if not isinstance(c, IntV) or not z3.is_int_value(z3.simplify(c.e)) or z3.simplify(c.e).as_long() != v:
+            ob.fail(f'{n} is not {v} in the type crate MIR'); return False
+    return True
+
+
+def t_asset_tags(world):
+    import z3
+    eng = world.engine(merge=True)
+    f = world.fn(r'general::validate_asset_tags$')
+    bank = eng.ex.fresh(f.params[0][1], 'bank'); acct = eng.ex.fresh(f.params[1][1], 'acct')
+    res = eng.run_fn(f, [bank, acct])
+    ob = Ob('C16.d.validate_asset_tags', 'validate_asset_tags over 16 symbolic slots: rejected iff (bank is default-like and an active position is staked) or (bank is staked and an active position is default-like); '
+            'SOL mixes with everything; a tag outside 0..=5 on an active slot panics (fail closed) and nothing else does',
+            [f.name], '16 slots unrolled, state-merged; all u8 tags and active bytes'); ob.paths = len(res)
+    if not _tag_consts(eng, ob): return [ob]
+    BAL = STRUCTS['Balance']; li = STRUCTS['MarginfiAccount'].index('lending_account'); bi = STRUCTS['LendingAccount'].index('balances')
+    act = [z3.Int(f'acct*.{li}.{bi}[{i}].{BAL.index("active")}') for i in range(16)]
+    tag = [z3.Int(f'acct*.{li}.{bi}[{i}].{BAL.index("bank_asset_tag")}') for i in range(16)]
+    btag = fsym('bank*', 'Bank', 'config.asset_tag')
+    dl = lambda t: z3.Or([t == k for k in DEFAULT_LIKE])
+    has_default = z3.Or([z3.And(act[i] != 0, dl(tag[i])) for i in range(16)])
+    has_staked = z3.Or([z3.And(act[i] != 0, tag[i] == STAKED) for i in range(16)])
+    reject = z3.Or(z3.And(dl(btag), has_staked), z3.And(btag == STAKED, has_default))
+    valid = z3.And([z3.Or(act[i] == 0, z3.And(tag[i] >= 0, tag[i] <= 5)) for i in range(16)])
+    nret = 0
+    for r in res:
+        if r['status'] == 'return':
+            nret += 1
+            if ob.witness(eng, r, []) is False: continue
+            ob.prove(eng, r, [], zint(r['ret'].disc) == z3.If(reject, 1, 0), 'Err(AssetTagMismatch) iff the reference predicate rejects', role='tag-mix')
+            ob.prove(eng, r, [], valid, 'returns only when every active slot carries a known tag', role='tag-unknown')
+        else:
+            ob.prove(eng, r, [], z3.Not(valid), 'a panic is reachable only with an unknown tag on an active slot (fail closed)', role='tag-panic')
+    if nret == 0: ob.fail('no returning path')
+    ob.need_witness()
+    # bank / bank variant
+    eng2 = world.engine(merge=True)
+    f2 = world.fn(r'general::validate_bank_asset_tags$')
+    a = eng2.ex.fresh(f2.params[0][1], 'ba'); b = eng2.ex.fresh(f2.params[1][1], 'bb')
+    res2 = eng2.run_fn(f2, [a, b])
+    ob2 = Ob('C16.d.validate_bank_asset_tags', 'validate_bank_asset_tags: rejected iff one bank is default-like and the other staked', [f2.name], 'loop-free; all u8 tags'); ob2.paths = len(res2)
+    ta = fsym('ba*', 'Bank', 'config.asset_tag'); tb = fsym('bb*', 'Bank', 'config.asset_tag')
+    rej2 = z3.Or(z3.And(dl(ta), tb == STAKED), z3.And(ta == STAKED, dl(tb)))
+    for r in returned(res2):
+        if ob2.witness(eng2, r, []) is False: continue
+        ob2.prove(eng2, r, [], zint(r['ret'].disc) == z3.If(rej2, 1, 0), 'Err iff default-like meets staked', role='tag-mix-banks')
+    ob2.need_witness()
+    return [ob, ob2]
+
+
+_t16d = tasks
+def tasks(tier):
+    return _t16d(tier) + [('asset_tags', t_asset_tags)]
